@@ -211,9 +211,15 @@ except Exception as _e:      # the front end could not read the current .pyx: ob
 
 if C_QUOTERS:
     add(Contract("yarl._quoting_c_pyx:bit_at", [], spec=None, abstract=_cmodel.bit_at_contract, assumed=False, props=()))
-    add(Contract("yarl._quoting_c_pyx:_write_char", [], spec=None, abstract=_cmodel.write_char_contract, props=()))
     add(Contract("yarl._quoting_c_pyx:_write_pct", [], spec=None, abstract=_cmodel.write_pct_contract, props=()))
     add(Contract("yarl._quoting_c_pyx:_write_utf8", [], spec=None, abstract=_cmodel.write_utf8_contract, props=()))
+    WRITE_CHAR = Contract("yarl._quoting_c_pyx:_write_char",
+                          [("writer", ("writer", "symbolic")), ("ch", INT), ("changed", BOOL)],
+                          spec=None, spec_module=spec_quote, abstract=_cmodel.write_char_contract,
+                          native_pre=hooks.writer_pre, native_post=hooks.write_char_post,
+                          props=("C19", "C05"),
+                          note="Writer invariant, in-bounds write, growth by malloc+memcpy / realloc, failure leaves the writer intact")
+    add(WRITE_CHAR)
     _CQ_LOOP = {
         "inv": "0 <= idx and idx <= length and G_p == idx and G_k == 0 and (writer.changed != 0 or G_same)",
         "ghost": {"p": "0", "k": "0", "same": "True"},
